@@ -223,19 +223,56 @@ def run_scripts(binary, scripts, tag, env=None, nproc=vlib.NCPU, timeout=1200):
     e["XCM_TLS_CERT"] = vlib.BUILD + "/creds/default"
     if env:
         e.update(env)
-    for i, ch in enumerate(chunks):
-        sp = "%s/w%d.script" % (d, i)
-        with open(sp, "w") as f:
-            for s in ch:
-                f.write("\n".join(s) + "\n")
+    import concurrent.futures
+    import re
+
+    def worker(i, ch):
+        """runs one chunk; if the harness dies in the middle (a crash of the library under test) the executions behind the
+        crashed one are run by a fresh process, so that one crash costs one execution and not the rest of the chunk"""
         tp = "%s/w%d.ndjson" % (d, i)
-        lp = open("%s/w%d.log" % (d, i), "w")
-        procs.append((subprocess.Popen(["timeout", str(timeout), binary, sp, tp], stdout=lp, stderr=subprocess.STDOUT, env=e), tp, lp))
-    traces = []
-    for p, tp, lp in procs:
-        p.wait()
-        lp.close()
-        traces.append(tp)
+        rest = list(ch)
+        attempt = 0
+        with open(tp, "w") as tout, open("%s/w%d.log" % (d, i), "w") as lp:
+            while rest and attempt < 60:
+                sp = "%s/w%d.%d.script" % (d, i, attempt)
+                with open(sp, "w") as f:
+                    for s_ in rest:
+                        f.write("\n".join(s_) + "\n")
+                part = "%s/w%d.%d.part" % (d, i, attempt)
+                rc = subprocess.call(["timeout", str(timeout), binary, sp, part], stdout=lp, stderr=subprocess.STDOUT, env=e)
+                last = None
+                try:
+                    with open(part) as pf:
+                        for line in pf:
+                            try:
+                                json.loads(line)
+                            except ValueError:
+                                # a line cut short by a crash in the middle of an observation: keep the crash record only
+                                k = line.rfind('{"x":')
+                                if k <= 0:
+                                    continue
+                                line = line[k:]
+                                try:
+                                    json.loads(line)
+                                except ValueError:
+                                    continue
+                            tout.write(line)
+                            m = re.match(r'\{"x":(\d+),"n":0,"op":"X"', line)
+                            if m:
+                                last = int(m.group(1))
+                except FileNotFoundError:
+                    pass
+                attempt += 1
+                if rc == 0 or last is None:
+                    break
+                ids = [int(s_[0].split()[1]) for s_ in rest]
+                if last not in ids:
+                    break
+                rest = rest[ids.index(last) + 1:]
+        return tp
+
+    with concurrent.futures.ThreadPoolExecutor(max_workers=nproc) as ex:
+        traces = list(ex.map(lambda a: worker(*a), enumerate(chunks)))
     return d, traces
 
 
